@@ -27,7 +27,7 @@ fn main() {
     let seed: u64 = args[1].parse().unwrap();
     let n: usize = args[2].parse().unwrap();
     let max_groups: usize = args[3].parse().unwrap();
-    std::panic::set_hook(Box::new(|_| {}));
+    ezpz_verif_harness::oracle::arm_crash_reporter("C17");
     let mut rng = Rng::new(seed);
     let mut out: Vec<Violation> = Vec::new();
     let (mut unions, mut groups_total, mut max_vars, mut skipped_group_fail) = (0usize, 0usize, 0usize, 0usize);
@@ -73,6 +73,7 @@ fn main() {
             // one priority level: the property is about variable-disjoint groups, not about levels
             let mut g = g;
             g.reqs = g.reqs.iter().map(|r| ConstraintRequest::highest_priority(*r.constraint())).collect();
+            ezpz_verif_harness::oracle::note_current(&g);
             match solve_analysis(&g.reqs, g.guesses.clone(), g.config()) {
                 Ok(o) if o.outcome.iterations() <= 12 => {
                     let under = o.analysis.underconstrained().to_vec();
@@ -113,6 +114,7 @@ fn main() {
         if rng.chance(2, 3) { rng.shuffle(&mut tagged); }
         let reqs: Vec<ConstraintRequest> = tagged.iter().map(|t| t.2).collect();
         let usys = System::default_cfg(reqs.clone(), guesses.clone(), "union");
+        ezpz_verif_harness::oracle::note_current(&usys);
         let mut bad = |what: String, sig: &str| out.push(Violation { property: "C17", what, signature: sig.into(), system: if total <= 3000 { Some(usys.clone()) } else { None }, extra: format!("{} groups, {} variables", groups.len(), total) });
         let union_scale = groups.iter().map(|g| g.0.scale).fold(1e-9f64, f64::max);
         match solve(&reqs, guesses, Config::default()) {
